@@ -31,6 +31,7 @@ type Pool struct {
 
 // Get takes the most recently put item, or makes a new one.
 func (p *Pool) Get() any {
+	zzsim.SyncOp()
 	p.mu.Lock()
 	if s := zzsim.Current(); s != p.owner {
 		p.owner, p.items = s, nil
@@ -50,6 +51,7 @@ func (p *Pool) Get() any {
 
 // Put gives an item back.
 func (p *Pool) Put(x any) {
+	zzsim.SyncOp()
 	if x == nil {
 		return
 	}
@@ -76,6 +78,7 @@ func wakeAll(ws []chan struct{}) {
 
 // Lock locks m.
 func (m *Mutex) Lock() {
+	zzsim.SyncOp()
 	for {
 		m.mu.Lock()
 		if !m.locked {
@@ -94,6 +97,7 @@ func (m *Mutex) Lock() {
 
 // TryLock tries to lock m.
 func (m *Mutex) TryLock() bool {
+	zzsim.SyncOp()
 	m.mu.Lock()
 	defer m.mu.Unlock()
 	if m.locked {
@@ -105,6 +109,7 @@ func (m *Mutex) TryLock() bool {
 
 // Unlock unlocks m.
 func (m *Mutex) Unlock() {
+	zzsim.SyncOp()
 	m.mu.Lock()
 	if !m.locked {
 		m.mu.Unlock()
@@ -145,6 +150,7 @@ func (m *RWMutex) wake() {
 
 // Lock takes the write lock.
 func (m *RWMutex) Lock() {
+	zzsim.SyncOp()
 	m.mu.Lock()
 	m.wwaiting++
 	for {
@@ -162,6 +168,7 @@ func (m *RWMutex) Lock() {
 
 // Unlock releases the write lock.
 func (m *RWMutex) Unlock() {
+	zzsim.SyncOp()
 	m.mu.Lock()
 	if !m.writer {
 		m.mu.Unlock()
@@ -174,6 +181,7 @@ func (m *RWMutex) Unlock() {
 
 // RLock takes a read lock.
 func (m *RWMutex) RLock() {
+	zzsim.SyncOp()
 	m.mu.Lock()
 	for {
 		if !m.writer && m.wwaiting == 0 {
@@ -189,6 +197,7 @@ func (m *RWMutex) RLock() {
 
 // RUnlock releases a read lock.
 func (m *RWMutex) RUnlock() {
+	zzsim.SyncOp()
 	m.mu.Lock()
 	if m.readers == 0 {
 		m.mu.Unlock()
@@ -201,6 +210,7 @@ func (m *RWMutex) RUnlock() {
 
 // TryLock tries to take the write lock.
 func (m *RWMutex) TryLock() bool {
+	zzsim.SyncOp()
 	m.mu.Lock()
 	defer m.mu.Unlock()
 	if m.writer || m.readers > 0 {
@@ -212,6 +222,7 @@ func (m *RWMutex) TryLock() bool {
 
 // TryRLock tries to take a read lock.
 func (m *RWMutex) TryRLock() bool {
+	zzsim.SyncOp()
 	m.mu.Lock()
 	defer m.mu.Unlock()
 	if m.writer || m.wwaiting > 0 {
@@ -236,19 +247,21 @@ type WaitGroup struct {
 }
 
 // Add adds delta.
-func (w *WaitGroup) Add(delta int) { w.wg.Add(delta) }
+func (w *WaitGroup) Add(delta int) { zzsim.SyncOp(); w.wg.Add(delta) }
 
 // Done decrements the counter.
-func (w *WaitGroup) Done() { w.wg.Done() }
+func (w *WaitGroup) Done() { zzsim.SyncOp(); w.wg.Done() }
 
 // Wait waits for the counter to reach zero.
 func (w *WaitGroup) Wait() {
+	zzsim.SyncOp()
 	w.wg.Wait()
 	zzsim.W("sync.WaitGroup.Wait")
 }
 
 // Go runs f in a new goroutine (Go 1.25 API).
 func (w *WaitGroup) Go(f func()) {
+	zzsim.SyncOp()
 	w.wg.Add(1)
 	t := zzsim.Spawn("sync.WaitGroup.Go")
 	go func() {
@@ -267,6 +280,7 @@ type Once struct {
 
 // Do calls f once.
 func (o *Once) Do(f func()) {
+	zzsim.SyncOp()
 	o.m.Lock()
 	defer o.m.Unlock()
 	if !o.done {
@@ -287,6 +301,7 @@ func NewCond(l Locker) *Cond { return &Cond{L: l} }
 
 // Wait waits for a Signal or Broadcast.
 func (c *Cond) Wait() {
+	zzsim.SyncOp()
 	ch := make(chan struct{})
 	c.mu.Lock()
 	c.waiters = append(c.waiters, ch)
@@ -299,6 +314,7 @@ func (c *Cond) Wait() {
 
 // Signal wakes one waiter.
 func (c *Cond) Signal() {
+	zzsim.SyncOp()
 	c.mu.Lock()
 	if len(c.waiters) > 0 {
 		ch := c.waiters[0]
@@ -310,6 +326,7 @@ func (c *Cond) Signal() {
 
 // Broadcast wakes all waiters.
 func (c *Cond) Broadcast() {
+	zzsim.SyncOp()
 	c.mu.Lock()
 	ws := c.waiters
 	c.waiters = nil
